@@ -32,9 +32,10 @@ structure NodeInfo where
   fnsIn : Option (List Nat)
   deriving Repr, Inhabited
 
-/-- a local function (FunctionDef / Lambda node): `ARGS_AND_BODY_SCOPE` -/
+/-- a local function (FunctionDef / Lambda node): `ARGS_AND_BODY_SCOPE`, and the function lexically enclosing it -/
 structure FnInfo where
   id : Nat
+  parent : Nat
   isLambda : Bool
   read : List Nat
   bound : List Nat
@@ -42,6 +43,7 @@ structure FnInfo where
   deriving Repr, Inhabited
 
 structure CfgData where
+  fnId : Nat
   graph : Graph
   entry : Nat
   exits : List Nat
